@@ -294,5 +294,16 @@ ConstraintDefs == <<
   D("C-seqof-union", TSeqOf(TBool, CUnion(R(1, 1), R(3, 4)))) >>
 ModConstraints == MkMod("VC", "EXPLICIT", ConstraintDefs)
 
-Modules == <<ModExplicit, ModAutomatic, ModImplicit, ModBig, ModConstraints>>
+\* ---- small modules that define the same type identifiers (cross-module name handling, C12) and
+\* carry character-string values the pretty-printer must reproduce verbatim
+ModX1 == MkMod("VX1", "EXPLICIT", <<
+  D("Id", Int0), D("Rec", TSeq(<<C(TRef("Id")), O(TBool)>>, FALSE, <<>>)), D("OnlyOne", TNull) >>)
+ModX2 == MkMod("VX2", "AUTOMATIC", <<
+  D("Id", IA5), D("Rec", TChoice(<<C(TRef("Id")), C(TBool)>>, FALSE, <<>>)), D("OnlyTwo", TBool) >>)
+ModX3 == MkMod("VX3", "IMPLICIT", <<
+  D("Id", TOctets(R(1, 4))),
+  D("Pct", TSeq(<<Df(IA5, <<49, 48, 48, 37, 32, 100, 111, 110, 101>>), Df(IA5, <<53, 48, 37>>), Df(TStr("Visible", CNone, <<>>), <<37, 115, 37, 110>>),
+                  C(TRef("Id"))>>, FALSE, <<>>)) >>)
+
+Modules == <<ModExplicit, ModAutomatic, ModImplicit, ModBig, ModConstraints, ModX1, ModX2, ModX3>>
 =============================================================================
